@@ -25,6 +25,19 @@ LIFO_POP = {'Vec::pop'}
 FIFO_POP = {'VecDeque::pop_front'}
 
 
+def _end(op):
+    """which end of the container an operation works on"""
+    return {'Vec::push': 'back', 'Vec::pop': 'back', 'VecDeque::push_back': 'back', 'VecDeque::pop_back': 'back',
+            'VecDeque::push_front': 'front', 'VecDeque::pop_front': 'front'}.get(op)
+
+
+def discipline(pop_op, push_op):
+    a, b_ = _end(pop_op), _end(push_op)
+    if a is None or b_ is None:
+        return None
+    return 'lifo' if a == b_ else 'fifo'
+
+
 def impls(F):
     out = {}
     for b in F.bodies:
@@ -110,7 +123,7 @@ def r2(ctx, ty, m):
     if len(pops) != 1 or len(pushes) != 1:
         ctx.undecided('C13.R2', site, 'expected one pop and one push in next()', b.span)
         return None
-    disc = 'lifo' if pops[0][1] in LIFO_POP else ('fifo' if pops[0][1] in FIFO_POP and pushes[0][1] == 'VecDeque::push_back' else None)
+    disc = discipline(pops[0][1], pushes[0][1])
     if disc is None:
         ctx.undecided('C13.R2', site, 'unknown frontier discipline %s/%s' % (pops[0][1], pushes[0][1]), b.span)
         return None
@@ -213,11 +226,16 @@ def r4(ctx, ty, m, disc):
     cfg = b.cfg()
     site = '%s::skip_subtree#pops' % ty
     pops = [(bb, Callee(t['func']).short, R.call_args(bb)) for bb, t in b.calls() if Callee(t['func']).name.startswith('pop')]
-    want = {'lifo': 'Vec::pop', 'fifo': 'VecDeque::pop_back'}.get(disc)
+    # the enqueue end is the end next() pushes to
+    nb = m['next']
+    push_ops = [Callee(t['func']).short for bb, t in nb.calls() if Callee(t['func']).name in ('push', 'push_back', 'push_front')]
+    enq_end = _end(push_ops[0]) if push_ops else None
+    want_set = {op for op in ('Vec::pop', 'VecDeque::pop_back', 'VecDeque::pop_front') if _end(op) == enq_end}
+    want = '/'.join(sorted(want_set))
     hdrs = cfg.loop_headers()
     rng = [R.call_args(bb)[0] for bb, t in b.calls_to('Iterator::next') if True]
     rng_ok = any(x[0] == 'agg' and isinstance(x[1], tuple) and x[1][1] == 'Range' and x[2][0] == ('const', 0) and x[2][1] == ('field', ('param', 'self'), 'last_push') for x in rng)
-    if len(pops) == 1 and pops[0][1] == want and hdrs and pops[0][0] in cfg.loop_of(hdrs[0]) and rng_ok \
+    if len(pops) == 1 and pops[0][1] in want_set and hdrs and pops[0][0] in cfg.loop_of(hdrs[0]) and rng_ok \
             and not cfg.reaches(_some_edge(b, cfg, R), hdrs[0], avoid=[pops[0][0]]):
         ctx.ok('C13.R4', site, 'removes exactly last_push entries from the enqueue end (%s)' % want, b.span)
     else:
